@@ -386,6 +386,25 @@ func (fx *FnCtx) instr(in ssa.Instruction) {
 	}
 }
 
+// returnOrdinal: position of a return statement among the function's return statements, in source order
+func (fx *FnCtx) returnOrdinal(x *ssa.Return) int {
+	var ps []token.Pos
+	for _, b := range fx.fn.Blocks {
+		for _, in := range b.Instrs {
+			if r, ok := in.(*ssa.Return); ok && r.Pos().IsValid() {
+				ps = append(ps, r.Pos())
+			}
+		}
+	}
+	sort.Slice(ps, func(i, j int) bool { return ps[i] < ps[j] })
+	for i, p := range ps {
+		if p == x.Pos() {
+			return i
+		}
+	}
+	return -1
+}
+
 // siteOrdinal: position of this call among the calls of the same contracted callee in the function, in source order
 func (fx *FnCtx) siteOrdinal(c *ssa.CallCommon, key string) int {
 	var ps []token.Pos
@@ -939,7 +958,13 @@ func (fx *FnCtx) ret(x *ssa.Return) {
 		if c.Assumed != "" {
 			continue // assumed postcondition: used by callers, listed as an assumption, not checked here
 		}
+		if c.Site >= 0 && c.Site != fx.returnOrdinal(x) {
+			continue
+		}
 		env := fx.env(fx.cur)
+		if c.Site >= 0 && x.Pos().IsValid() {
+			env.pos = x.Pos()
+		}
 		env.results = results
 		// in postconditions, parameter names denote entry values
 		for n, pv := range fx.paramTerm {
